@@ -1,11 +1,10 @@
-(** The RandomGen theorems for fragment F0, stated on the interface functions
-    [keys_of] / [decode_key] / [accepts] of Random/Enum.v and Random/FragSem.v.
+(** Fragment F0 ([Frag.frag0]) is contained in fragment F1 ([Frag.frag1]); the
+    theorems about F0 (used by Encode/SatRandom.v and by the first version of
+    Properties/C04-C06) are corollaries of those about F1 (Random/Frag1Thms.v).
     Proof file. *)
 From Coq Require Import ZArith List Bool Arith Lia.
-From SP Require Import Design.Flat Design.Layout Design.Sem Comb.CombModel Comb.CombSpec Random.Enum Random.Frag
-  Random.FragSem Random.RunLemmas Random.Frag0Enum Random.Frag0Decode Random.Frag0Sem Random.Frag0Valid
-  Random.Frag0Keys Random.Frag0Inj Random.Frag0Complete.
-From SP Require Comb.PermProofs.
+From SP Require Import Design.Flat Design.Layout Design.Sem Comb.CombModel Random.Enum Random.Frag
+  Random.FragSem Random.RunLemmas Random.Frag0Enum Random.Frag1Thms.
 Import ListNotations.
 Open Scope nat_scope.
 
@@ -13,160 +12,96 @@ Section F0T.
 Variable fb : flat.
 Hypothesis HF : frag0 fb = true.
 
-Local Notation Hq := (f0_q_pos fb HF).
-Local Notation en := (f0_enum fb).
-
-Lemma f0_keys_of : keys_of fb = if fl_errors_fail fb || (en_count en =? 0)%Z then [] else f0_keys fb.
-Proof. unfold keys_of. rewrite (sample_keys_f0 fb HF Hq). reflexivity. Qed.
-
-Lemma f0_keys_of_ok k : In k (keys_of fb) -> key_ok fb k.
+Lemma frag0_parts :
+  single_plain_crossing fb = true /\ no_rejecting_constraints fb = true /\ no_exclusions fb = true /\
+  all_active fb = true /\ all_basic fb = true /\ unit_weights fb = true /\ plain_geometry fb = true /\
+  size_matches fb = true /\ nonempty_levels fb = true.
 Proof.
-  rewrite f0_keys_of. destruct (fl_errors_fail fb || (en_count en =? 0)%Z); [intros []|].
-  apply (f0_keys_In fb HF Hq).
+  pose proof HF as H. unfold frag0 in H. repeat (apply andb_prop in H; destruct H as [H ?]). repeat split; assumption.
 Qed.
 
-Lemma f0_decode_key k : key_ok fb k ->
-  exists r, decode_key fb k = Some r /\ forall g, row_of_run r g = decoded_row fb k g.
+Lemma frag0_no_excluded di : is_excluded_combination fb di = false.
 Proof.
-  intros Hk. destruct (decode_f0 fb HF Hq k Hk) as [r [Hd Hrow]].
-  exists r. split; [|exact Hrow]. unfold decode_key. rewrite (f0_make_enumerator fb HF Hq), Hd. reflexivity.
+  destruct frag0_parts as (_ & _ & Hex & _). unfold no_exclusions in Hex. unfold is_excluded_combination.
+  destruct (fl_exclude fb); [|discriminate]. destruct (fl_excluded_derived fb); [reflexivity | discriminate].
 Qed.
 
-(** no candidate of an F0 design is rejected *)
-Lemma f0_not_violated r : are_constraints_violated fb en r = ROk false.
+Lemma frag0_no_exclude_constraint :
+  flat_map (fun k => match k with FExclude f l => [(f, l)] | _ => [] end) (fl_constraints fb) = [].
 Proof.
-  unfold are_constraints_violated.
-  assert (H : (fix go (cs : list fconstraint) : rres bool :=
-                 match cs with
-                 | [] => ROk false
-                 | c :: t => ok <-- constraint_conforms fb r c ;;; if ok then go t else ROk true
-                 end) (fl_constraints fb) = ROk false).
-  { pose proof (f0_constraints fb (f0_unpack fb HF)) as Hc.
-    induction (fl_constraints fb) as [|c t IH]; [reflexivity|].
-    pose proof (Hc c (or_introl eq_refl)) as Hk. destruct c; try contradiction; cbn [constraint_conforms rbind];
-      apply IH; intros x Hx; apply Hc; right; exact Hx. }
-  rewrite H. cbn [rbind]. cbn [en_base f0_enum eb_has_cc f0_base orb].
-  rewrite (f0_crossings fb (f0_unpack fb HF)). reflexivity.
+  destruct frag0_parts as (_ & Hc & _). unfold no_rejecting_constraints in Hc. rewrite forallb_forall in Hc.
+  induction (fl_constraints fb) as [|k t IH]; [reflexivity|]. cbn [flat_map].
+  rewrite IH by (intros x Hx; apply Hc; right; exact Hx).
+  specialize (Hc k (or_introl eq_refl)). destruct k; try discriminate; reflexivity.
 Qed.
 
-Lemma f0_accepts r : accepts fb r = true.
-Proof. unfold accepts. rewrite (f0_make_enumerator fb HF Hq), f0_not_violated. reflexivity. Qed.
+Theorem frag0_frag1 : frag1 fb = true.
+Proof.
+  destruct frag0_parts as (H1 & H2 & H3 & H4 & H5 & H6 & H7 & H8 & H9).
+  unfold frag1. rewrite H1, H4, H5, H6, H7, H2. rewrite orb_true_r. cbn [andb]. rewrite !andb_true_r.
+  apply andb_true_intro. split; [apply andb_true_intro; split; [apply andb_true_intro; split|]|].
+  - apply forallb_forall. intros k Hk. unfold no_rejecting_constraints in H2. rewrite forallb_forall in H2.
+    specialize (H2 k Hk). destruct k; try discriminate; reflexivity.
+  - unfold exclude_consistent. rewrite frag0_no_exclude_constraint. unfold no_exclusions in H3.
+    destruct (fl_exclude fb); [|discriminate]. destruct (fl_excluded_derived fb); [reflexivity | discriminate].
+  - unfold size_matches1. unfold size_matches in H8. unfold single_plain_crossing in H1.
+    destruct (fl_crossings fb) as [|c [|? ?]]; try discriminate. destruct (fl_sizes fb) as [|s0 [|? ?]]; try discriminate.
+    apply Nat.eqb_eq in H8. subst s0.
+    assert (Hall : allowed_combos fb c = product (map (all_levels fb) c)).
+    { unfold allowed_combos. apply filter_all. intros ls _. rewrite frag0_no_excluded. reflexivity. }
+    rewrite Hall, Nat.eqb_refl. cbn [andb]. apply Nat.ltb_lt.
+    destruct (fl_sustains fb) as [|[|[|?]] [|? ?]]; try discriminate.
+    apply andb_prop in H1. destruct H1 as [_ Hr]. rewrite forallb_forall in Hr.
+    assert (Hne : product (map (all_levels fb) c) <> []).
+    { apply product_nonempty. intros l Hl. apply in_map_iff in Hl. destruct Hl as [f [E Hf]]. subst l.
+      unfold all_levels, nlevels, factor_at. specialize (Hr f Hf). apply Nat.ltb_lt in Hr.
+      destruct (nth_error (fl_design fb) f) as [fd|] eqn:Ef; [|apply nth_error_None in Ef; lia].
+      unfold nonempty_levels in H9. rewrite forallb_forall in H9. specialize (H9 fd (nth_error_In _ _ Ef)).
+      apply Nat.ltb_lt in H9. destruct (length (ff_levels fd)); [lia | discriminate]. }
+    destruct (product (map (all_levels fb) c)); [contradiction | cbn; lia].
+  - unfold free_levels_nonempty. apply forallb_forall. intros f Hf. apply in_seq in Hf. apply Nat.ltb_lt.
+    assert (Hl : nonexcluded_levels fb f = all_levels fb f).
+    { unfold nonexcluded_levels. apply filter_all. intros l _. rewrite frag0_no_excluded. reflexivity. }
+    rewrite Hl. unfold all_levels. rewrite seq_length. unfold nlevels, factor_at.
+    destruct (nth_error (fl_design fb) f) as [fd|] eqn:Ef; [|apply nth_error_None in Ef; lia].
+    unfold nonempty_levels in H9. rewrite forallb_forall in H9. specialize (H9 fd (nth_error_In _ _ Ef)).
+    apply Nat.ltb_lt in H9. exact H9.
+Qed.
 
-(** C04 on F0: the candidate of every key RandomGen can draw is valid *)
+Lemma frag0_rejection_free : rejection_free fb = true.
+Proof.
+  destruct frag0_parts as (_ & Hc & _). unfold no_rejecting_constraints in Hc. unfold rejection_free.
+  rewrite forallb_forall in *. intros k Hk. specialize (Hc k Hk). destruct k; try discriminate; reflexivity.
+Qed.
+
+Local Notation HF1 := frag0_frag1.
+
 Theorem f0_accept_sound k cand :
   In k (keys_of fb) -> decode_key fb k = Some cand -> accepts fb cand = true ->
   valid_b (code_sem fb) (tseq_of_run fb cand) = true.
-Proof.
-  intros Hin Hdec _. pose proof (f0_keys_of_ok k Hin) as Hk.
-  destruct (f0_decode_key k Hk) as [r [Hd Hrow]]. rewrite Hd in Hdec. inversion Hdec; subst cand.
-  apply (f0_valid fb HF Hq k Hk r Hrow).
-Qed.
+Proof. exact (f1_accept_sound fb HF1 k cand). Qed.
 
-
-Lemma tseq_nth (r : run) g : g < length (fl_design fb) -> nth g (tseq_of_run fb r) [] = row_of_run r g.
-Proof.
-  intros Hg. unfold tseq_of_run.
-  change (fun f : nat => match rlookup r f with Some row => row | None => [] end) with (row_of_run r).
-  rewrite nth_indep with (d' := row_of_run r 0) by (rewrite map_length, seq_length; exact Hg).
-  rewrite map_nth. rewrite seq_nth by exact Hg. reflexivity.
-Qed.
-
-(** C05, injectivity on F0: two keys with the same trial sequence are the same key *)
 Theorem f0_cand_inj k1 k2 c1 c2 :
   In k1 (keys_of fb) -> In k2 (keys_of fb) ->
   decode_key fb k1 = Some c1 -> decode_key fb k2 = Some c2 ->
   tseq_of_run fb c1 = tseq_of_run fb c2 -> k1 = k2.
-Proof.
-  intros H1 H2 D1 D2 E. pose proof (f0_keys_of_ok k1 H1) as Hk1. pose proof (f0_keys_of_ok k2 H2) as Hk2.
-  destruct (f0_decode_key k1 Hk1) as [r1 [Hd1 Hr1]]. destruct (f0_decode_key k2 Hk2) as [r2 [Hd2 Hr2]].
-  rewrite Hd1 in D1. rewrite Hd2 in D2. inversion D1; inversion D2; subst c1 c2.
-  apply (f0_decode_inj fb HF Hq k1 k2 Hk1 Hk2). intros g Hg.
-  rewrite <- Hr1, <- Hr2, <- !tseq_nth by exact Hg. rewrite E. reflexivity.
-Qed.
+Proof. exact (f1_cand_inj fb HF1 k1 k2 c1 c2). Qed.
 
 Theorem f0_keys_nodup : NoDup (keys_of fb).
-Proof.
-  rewrite f0_keys_of. destruct (fl_errors_fail fb || (en_count en =? 0)%Z); [constructor|].
-  apply (f0_keys_NoDup fb HF Hq).
-Qed.
+Proof. exact (f1_keys_nodup fb HF1). Qed.
 
-(** the number of keys RandomGen draws from is [possible_keys] *)
-Theorem f0_keys_count :
-  fl_errors_fail fb = false -> (en_count en =? 0)%Z = false ->
-  make_enumerator fb = ROk en /\ Z.of_nat (length (keys_of fb)) = possible_keys fb en.
-Proof.
-  intros He Hc. split; [apply (f0_make_enumerator fb HF Hq)|].
-  rewrite f0_keys_of, He, Hc. cbn [orb]. apply (f0_keys_length fb HF Hq).
-Qed.
-
-
-Lemma prodZl_pos l : (forall x, In x l -> (0 < x)%Z) -> (0 < prodZl l)%Z.
-Proof.
-  unfold prodZl. intros H. assert (G : forall acc, (0 < acc)%Z -> (0 < fold_left Z.mul l acc)%Z).
-  { induction l as [|x t IH]; intros acc Ha; cbn; [exact Ha|]. apply IH.
-    - intros y Hy. apply H. right. exact Hy.
-    - apply Z.mul_pos_pos; [exact Ha | apply H; left; reflexivity]. }
-  apply G. lia.
-Qed.
-
-Lemma f0_count_pos : (0 < en_count en)%Z.
-Proof.
-  cbn [en_count f0_enum]. apply Z.mul_pos_pos.
-  - unfold f0_perms. pose proof (PermProofs.ffact_fact (f0_q fb) (f0_q fb) (le_n _)) as E.
-    rewrite Nat.sub_diag in E. cbn [fact_nat] in E. pose proof (fact_nat_pos (f0_q fb)). lia.
-  - apply prodZl_pos. intros x Hx. unfold f0_inds in Hx. apply in_map_iff in Hx. destruct Hx as [g [E Hg]]. subst x.
-    apply Z.pow_pos_nonneg; [|lia]. apply (ubi_In fb HF Hq) in Hg. destruct Hg as [Hg _].
-    pose proof (f0_nonempty fb (f0_unpack fb HF) g Hg). lia.
-Qed.
-
-Lemma f0_keys_of_full : fl_errors_fail fb = false -> keys_of fb = f0_keys fb.
-Proof.
-  intros He. rewrite f0_keys_of, He. replace (en_count en =? 0)%Z with false; [reflexivity|].
-  symmetry. apply Z.eqb_neq. pose proof f0_count_pos. lia.
-Qed.
-
-(** C05, completeness on F0: every valid sequence is the candidate of a key
-    RandomGen can draw, and that candidate is accepted *)
 Theorem f0_accept_complete s :
   fl_errors_fail fb = false -> valid_b (code_sem fb) s = true ->
   exists k cand, In k (keys_of fb) /\ decode_key fb k = Some cand /\ accepts fb cand = true /\
                  tseq_of_run fb cand = s.
-Proof.
-  intros He Hv. pose proof (the_key_ok fb HF Hq s Hv) as Hk.
-  destruct (f0_decode_key _ Hk) as [r [Hd Hrow]].
-  exists (the_key fb s), r. split; [rewrite (f0_keys_of_full He); apply (f0_keys_In fb HF Hq); exact Hk|].
-  split; [exact Hd|]. split; [apply f0_accepts|].
-  apply (nth_ext _ _ [] []).
-  - unfold tseq_of_run. rewrite map_length, seq_length. symmetry. apply (v_length fb HF Hq s Hv).
-  - intros g Hg. unfold tseq_of_run in Hg. rewrite map_length, seq_length in Hg.
-    rewrite tseq_nth by exact Hg. rewrite Hrow. apply (the_key_rows fb HF Hq s Hv g Hg).
-Qed.
-
-(** C06 on F0: the valid sequences are exactly the candidates of the keys, one
-    key each, [possible_keys] of them *)
-Definition cand_tseq (k : key) : tseq :=
-  match decode_key fb k with Some cand => tseq_of_run fb cand | None => [] end.
+Proof. exact (f1_accept_complete fb HF1 s). Qed.
 
 Theorem f0_count_exact :
   fl_errors_fail fb = false ->
-  make_enumerator fb = ROk en /\
-  NoDup (map cand_tseq (keys_of fb)) /\
-  (forall s, In s (map cand_tseq (keys_of fb)) <-> valid_b (code_sem fb) s = true) /\
-  Z.of_nat (length (map cand_tseq (keys_of fb))) = possible_keys fb en.
-Proof.
-  intros He. split; [apply (f0_make_enumerator fb HF Hq)|]. split; [|split].
-  - apply NoDup_map_inj_in; [|apply f0_keys_nodup].
-    intros k1 k2 H1 H2 E. unfold cand_tseq in E.
-    destruct (f0_decode_key k1 (f0_keys_of_ok k1 H1)) as [r1 [Hd1 _]].
-    destruct (f0_decode_key k2 (f0_keys_of_ok k2 H2)) as [r2 [Hd2 _]].
-    rewrite Hd1, Hd2 in E. apply (f0_cand_inj k1 k2 r1 r2 H1 H2 Hd1 Hd2 E).
-  - intros s. split.
-    + intros Hin. apply in_map_iff in Hin. destruct Hin as [k [E Hk]]. unfold cand_tseq in E.
-      destruct (f0_decode_key k (f0_keys_of_ok k Hk)) as [r [Hd _]]. rewrite Hd in E. subst s.
-      apply (f0_accept_sound k r Hk Hd (f0_accepts r)).
-    + intros Hv. destruct (f0_accept_complete s He Hv) as (k & cand & Hk & Hd & _ & E).
-      apply in_map_iff. exists k. split; [|exact Hk]. unfold cand_tseq. rewrite Hd. exact E.
-  - rewrite map_length. apply f0_keys_count; [exact He|]. apply Z.eqb_neq. pose proof f0_count_pos. lia.
-Qed.
+  make_enumerator fb = ROk (f0_enum fb) /\
+  NoDup (map (cand_tseq fb) (keys_of fb)) /\
+  (forall s, In s (map (cand_tseq fb) (keys_of fb)) <-> valid_b (code_sem fb) s = true) /\
+  Z.of_nat (length (map (cand_tseq fb) (keys_of fb))) = possible_keys fb (f0_enum fb).
+Proof. intros He. exact (f1_count_exact fb HF1 He frag0_rejection_free). Qed.
 
 End F0T.
